@@ -82,7 +82,7 @@ def block(btype, payload):
     return bytes([0x55, 0x3C, btype, len(payload)]) + payload + bytes([(btype + len(payload) + sum(payload)) & 0xFF, 0x55])
 
 
-def write(files, name_leader=128, data_leader=128, gap=None, blank=128, chunk=255):
+def write(files, name_leader=128, data_leader=128, gap=None, blank=128, chunk=255, gapflag=None):
     """
     Independent writer of well-formed streams. files: dicts name(str), type, dtype, load, exec, data(bytes).
     name_leader/data_leader: number of $55 bytes before the name-file block / the first data block (>= 0; the block's own
@@ -93,7 +93,8 @@ def write(files, name_leader=128, data_leader=128, gap=None, blank=128, chunk=25
     for f in files:
         nm = f["name"].encode("latin1")[:8].ljust(8, b" ")
         out += bytes(blank) + b"\x55" * name_leader
-        out += block(0x00, nm + bytes([f["type"], f["dtype"], 0xFF if gap is not None else 0x00, f["load"] >> 8, f["load"] & 0xFF,
+        flag = gapflag if gapflag is not None else (0xFF if gap is not None else 0x00)
+        out += block(0x00, nm + bytes([f["type"], f["dtype"], flag, f["load"] >> 8, f["load"] & 0xFF,
                                        f["exec"] >> 8, f["exec"] & 0xFF]))
         out += bytes(blank) + b"\x55" * data_leader
         data = f["data"]
